@@ -1,0 +1,7 @@
+//go:build !verif
+// +build !verif
+
+package leveldbstorage
+
+// verifFault is the fault-injection point of the verification harness; without the verif build tag it does nothing.
+func verifFault(*Storage, string, int) error { return nil }
